@@ -106,6 +106,8 @@ def explore(res, tier, seed, model_ok=True):
                 b = Scenario([], poll=poll, prate=0, ctimeout=ct)
                 env = [('wait', 0, ('data', b.good_reply()))] + [('wait', poll, None)] * ((ct // poll) + 4)
                 scs.append(Scenario(env, {close_at: [('close', 1000, ('b', b'bye'))]}, poll=poll, prate=0, ctimeout=ct)); ntimeout += 1
+                # the application keeps calling close() at every later event (no-ops): the timeout armed by the first call must still fire
+                scs.append(Scenario(env, {i: [('close', 1000, ('b', b'bye'))] for i in range(close_at, close_at + 40)}, poll=poll, prate=0, ctimeout=ct)); ntimeout += 1
     for pt in (2, 4, 7):
         for poll in (1, 3):
             b = Scenario([], poll=poll, prate=2, ptimeout=pt)
